@@ -53,6 +53,26 @@ def _share_renders(method):
     return rebuild
 
 
+def shared_render_variant(tag: str, source: Any, make: Any) -> Any:
+    """Return the render-time variant of *source* made by *make*, once per rebuild().
+
+    A node that is copied afresh on every render (a renamed attrpath binding,
+    a value without its trailing trivia) has a new identity each time, which
+    would defeat the sharing above; the variant is read-only, so one copy per
+    outermost rebuild() call serves every render.
+    """
+    cache = getattr(_RENDER, "cache", None)
+    if cache is None:
+        return make()
+    key = (tag, id(source))
+    hit = cache.get(key)
+    if hit is not None:
+        return hit[1]
+    variant = make()
+    cache[key] = (source, variant)
+    return variant
+
+
 @dataclass(kw_only=True, slots=True, weakref_slot=True)
 class NixExpression:
     """Base class for all Nix objects."""
